@@ -420,7 +420,8 @@ def run_case(case):
         rec.extra["setup_failed"] = f"{type(e).__name__}: {str(e)[:140]}"
         return rec.result()
     m = agentops.make_mutations(probs=case["probs"], seed=case["seed"] % 100000, mutate_elite=bool(case.get("mutate_elite", True)),
-                                **({"new_layer_prob": 0.7} if case.get("tight_head") else {}))
+                                **({"new_layer_prob": 0.7} if case.get("tight_head") else {}),
+                                **({"activation_selection": ["Tanh", "Sigmoid", "GELU"], "mutation_sd": 0.3} if case["seed"] % 3 == 0 else {}))
     real_applied = False
     learned = False
     for gen in range(case["gens"]):
